@@ -1353,30 +1353,45 @@ theorem runLoop_mono (H : Bytes → Bytes) (j : Nat) : ∀ (f : Nat) (s : TreeSt
         | none => simp
         | some s' => exact runLoop_mono H j f s'
 
+theorem runLoopSt_more_fuel (H : Bytes → Bytes) (s0 : TreeSt) (F j : Nat) (hne : runLoop H F s0 ≠ some none) :
+    (runLoopSt H (F + j) s0).2 = (runLoop H F s0).map (fun o => o.map (·.1)) ∧
+    (∀ r s', runLoop H F s0 = some (some (r, s')) → (runLoopSt H (F + j) s0).1 = s') := by
+  have hm := runLoop_mono H j F s0
+  have he := runLoopSt_eq H (F + j) s0
+  cases hr : runLoop H F s0 with
+  | none => rw [hm.2 hr] at he; exact ⟨by simp [he.1], fun r s' h => by cases h⟩
+  | some o =>
+    cases o with
+    | none => exact absurd hr hne
+    | some x =>
+      have h2 := hm.1 x hr
+      rw [h2] at he
+      refine ⟨by simp [he.1], fun r s' h => ?_⟩
+      simp only [Option.some.injEq] at h
+      subst h
+      exact he.2 r s' rfl
+
 /-- on a fresh tree `populateOn` is `populate` -/
 theorem populateOn_newTree (H : Bytes → Bytes) (n : Nat) (fl : List Bool) (hs : List Bytes)
     (hfuel : populate H n fl hs ≠ .outOfFuel) :
     (populateOn H (newTree n) fl hs).2 = populate H n fl hs := by
   unfold populateOn populate at *
   simp only [newTree] at *
-  generalize hs0 : ({ total := n, maxD := maxDepth n, nodes := fun _ _ => none, depth := 0, index := 0,
-    flagBits := fl, hashes := hs, proved := [] } : TreeSt) = s0 at *
-  have hm := runLoop_mono H (3 * maxDepth n) (3 * fl.length + 4) s0
-  have he := runLoopSt_eq H (3 * fl.length + 4 + 3 * maxDepth n) s0
-  rw [show 3 * fl.length + 3 * maxDepth n + 4 = 3 * fl.length + 4 + 3 * maxDepth n by omega]
-  cases hr : runLoop H (3 * fl.length + 4) s0 with
-  | none =>
-    rw [hm.2 hr] at he
-    simp only [he.1, Option.map_none]
+  have hne : runLoop H (3 * fl.length + 4) (mk n (maxDepth n) (fun _ _ => none) 0 0 fl hs []) ≠ some none := by
+    intro h; simp only [mk] at h; rw [h] at hfuel; exact hfuel rfl
+  have hl := runLoopSt_more_fuel H (mk n (maxDepth n) (fun _ _ => none) 0 0 fl hs []) (3 * fl.length + 4) (3 * maxDepth n) hne
+  simp only [mk] at hl
+  cases hr : runLoop H (3 * fl.length + 4)
+      { total := n, maxD := maxDepth n, nodes := fun _ _ => none, depth := 0, index := 0, flagBits := fl, hashes := hs, proved := [] } with
+  | none => rw [hr] at hl; simp only [hl.1, Option.map_none]
   | some o =>
     cases o with
-    | none => rw [hr] at hfuel; simp at hfuel
+    | none => exact absurd hr hne
     | some x =>
       obtain ⟨r, s'⟩ := x
-      have h2 := hm.1 (r, s') hr
-      rw [h2] at he
-      have h3 := he.2 r s' rfl
-      simp only [he.1, h3, Option.map_some]
+      rw [hr] at hl
+      have h3 := hl.2 r s' rfl
+      simp only [hl.1, h3, Option.map_some]
       split <;> (try split) <;> rfl
 
 /-- calling populate_tree again on a tree whose root is known runs no iteration: it raises unless no hash and
@@ -1387,6 +1402,6 @@ theorem populateOn_finished (H : Bytes → Bytes) (t : TreeSt) (r : Bytes) (fl :
       if hs.length ≠ 0 then .error else if fl.any id then .error else .done r t.proved) := by
   unfold populateOn
   have hg : ({ t with flagBits := fl, hashes := hs } : TreeSt).get 0 0 = some (some r) := hroot
-  rw [show 3 * fl.length + 3 * t.maxD + 4 = (3 * fl.length + 3 * t.maxD + 3) + 1 by omega]
+  rw [show 3 * fl.length + 4 + 3 * t.maxD = (3 * fl.length + 3 + 3 * t.maxD) + 1 by omega]
   simp only [runLoopSt, hg]
   split <;> (try split) <;> rfl
